@@ -21,6 +21,7 @@ import time
 
 HERE = os.path.dirname(os.path.abspath(__file__))
 DEFAULT_SEED = 20260927
+BUILD_INFO = ([], [])
 
 
 def _reexec():
@@ -32,24 +33,56 @@ def _reexec():
         os.execve(sys.executable, [sys.executable] + sys.argv, env)
 
 
-def stale_extensions():
-    """Extensions whose .pyx is newer than the built .so (cannot be regenerated here: no Cython)."""
-    import biotite
+def biotite_root():
+    """Directory of the biotite package that will be imported, without importing it."""
+    import importlib.util
 
-    root = os.path.dirname(biotite.__file__)
-    stale = []
-    rebuilt = []
+    spec = importlib.util.find_spec("biotite")
+    return os.path.dirname(spec.origin)
+
+
+def rebuild_extensions():
+    """'Rebuild from the working tree': Python sources are imported live (editable install). For every Cython
+    extension: if Cython is importable, regenerate the C file from a newer .pyx; if the C file is newer than the
+    built module, recompile it with gcc; if the .pyx is newer than everything and cannot be regenerated, report it
+    as stale (the check then runs against the module on disk and says so in the evidence)."""
+    import sysconfig
+
+    root = biotite_root()
+    stale, rebuilt = [], []
+    try:
+        import Cython  # noqa: F401
+        have_cython = True
+    except ImportError:
+        have_cython = False
     for d, _, files in os.walk(root):
         for f in files:
-            if f.endswith(".pyx"):
-                base = f[:-4]
-                sos = [x for x in files if x.startswith(base + ".") and x.endswith(".so")]
-                if not sos:
-                    stale.append(os.path.join(d, f) + " (no .so)")
-                    continue
-                so = os.path.join(d, sos[0])
-                if os.path.getmtime(os.path.join(d, f)) > os.path.getmtime(so) + 1:
-                    stale.append(os.path.relpath(os.path.join(d, f), root))
+            if not f.endswith(".pyx"):
+                continue
+            base = f[:-4]
+            pyx = os.path.join(d, f)
+            cfile = os.path.join(d, base + ".c")
+            sos = [x for x in files if x.startswith(base + ".") and x.endswith(".so")]
+            so = os.path.join(d, sos[0]) if sos else os.path.join(d, base + sysconfig.get_config_var("EXT_SUFFIX"))
+            so_m = os.path.getmtime(so) if os.path.exists(so) else 0
+            c_m = os.path.getmtime(cfile) if os.path.exists(cfile) else 0
+            if os.path.getmtime(pyx) > max(so_m, c_m) + 1:
+                if have_cython:
+                    subprocess.run([sys.executable, "-m", "cython", "-3", pyx, "-o", cfile], check=False, capture_output=True)
+                    c_m = os.path.getmtime(cfile) if os.path.exists(cfile) else 0
+                else:
+                    stale.append(os.path.relpath(pyx, root))
+            if c_m > so_m + 1:
+                import numpy
+
+                cmd = ["gcc", "-O1", "-shared", "-fPIC", "-w", "-I" + sysconfig.get_paths()["include"], "-I" + numpy.get_include(),
+                       cfile, "-o", so + ".tmp"]
+                p = subprocess.run(cmd, capture_output=True, text=True)
+                if p.returncode == 0:
+                    os.replace(so + ".tmp", so)
+                    rebuilt.append(os.path.relpath(so, root))
+                else:
+                    stale.append(os.path.relpath(cfile, root) + " (gcc failed)")
     return stale, rebuilt
 
 
@@ -73,6 +106,14 @@ def main():
     args = ap.parse_args()
     _reexec()
     seed = int(os.environ.get("VERIF_SEED", DEFAULT_SEED))
+    global BUILD_INFO
+    BUILD_INFO = ([], [])
+    if not (args.digests or args.show is not None):
+        BUILD_INFO = rebuild_extensions()  # before biotite is imported
+        if BUILD_INFO[1]:
+            print("rebuilt extension modules from newer C files:", ", ".join(BUILD_INFO[1]))
+        if BUILD_INFO[0]:
+            print("NOTE: stale extension modules (source newer than the built module, cannot be regenerated here):", ", ".join(BUILD_INFO[0]))
     from sim import core
 
     mod = load(args.prop)
@@ -92,9 +133,7 @@ def main():
         return 0
 
     if args.show is not None:
-        rng = core.rng_for(prop, seed, args.show)
-        spec = mod.generate(rng)
-        spec["seed"] = core.run_seed(prop, seed, args.show)
+        spec = core.make_spec(mod, seed, args.show)
         print(json.dumps(spec, indent=1, default=core._json_default))
         out = core.execute_isolated(mod, spec, keep_log=10000)
         for line in out.get("log") or []:
@@ -195,9 +234,8 @@ def batch(core, mod, prop, seed, n, args, scratch, t0):
         seen_sigs.add(v["sig"])
         if len(replay_paths) >= 3:
             break
-        rng = core.rng_for(prop, seed, idx)
-        spec = mod.generate(rng)
-        spec["seed"] = core.run_seed(prop, seed, idx)
+        vmod = getattr(mod, "ENUM_MODULE", None) if v.get("phase") == "enum" else mod
+        spec = core.make_spec(vmod, seed, idx)
         first = core.execute_isolated(mod, spec)
         sig = core.outcome_sig(first)
         if sig is None:
@@ -218,7 +256,7 @@ def batch(core, mod, prop, seed, n, args, scratch, t0):
         replay_paths.append((path, sig, idx))
 
     wall = time.monotonic() - t0
-    stale, _ = stale_extensions()
+    stale, rebuilt = BUILD_INFO
     if not args.no_evidence:
         write_evidence(core, mod, prop, seed, args, total, truncated, det, known_seen, new_violations,
                        replay_paths, wall, wall_runs, stale, extra_info)
@@ -277,6 +315,7 @@ def write_evidence(core, mod, prop, seed, args, total, truncated, det, known_see
             "components": mod.COMPONENTS,
             "determinism_sample": det,
             "stale_extensions": stale,
+            "rebuilt_extensions": BUILD_INFO[1],
             "truncated": truncated,
             "known_findings_seen": {k: {"text": v[0], "first_run_index": v[1]} for k, v in sorted(known_seen.items())},
             "violation_signatures": sorted({v["sig"] for _, v in new_violations}),
